@@ -257,9 +257,11 @@ def keytype_stream(ck, world):
     samples = []
     for c in (ec.SECP256R1(), ec.SECP384R1(), ec.SECP521R1(), ec.SECP224R1(), ec.SECP256K1(), ec.BrainpoolP256R1()):
         try:
-            samples.append((ec.generate_private_key(c), 0, c.key_size))
+            key = ec.generate_private_key(c)
         except Exception:  # noqa: BLE001  (curve not available in this OpenSSL)
-            pass
+            continue
+        kind, size = sl.kind_of_key(key)           # a curve other than P-256 / P-384 / P-521: of no supported class (KOther), as in the model
+        samples.append((key, 0 if kind == "ec" else 3, size))
     samples += [(ed25519.Ed25519PrivateKey.generate(), 1, 0), (ed448.Ed448PrivateKey.generate(), 2, 0), (rsa.generate_private_key(65537, 1024), 3, 0)]
     reqs, ires, fails = [], [], []
     for key, code, ks in samples:
@@ -268,7 +270,10 @@ def keytype_stream(ck, world):
             ires.append(ir)
             reqs.append(["sign_keytype", code, ks, alg.encode()])
             ck.count("keytype", (code, ks, alg), nontrivial=True, sample={"key": type(key).__name__, "key_size": ks, "alg": alg})
-            if alg in ALGS and code in (0, 1) and (code == 1 or ks in (256, 384, 521)) and not isinstance(getattr(key, "curve", None), ec.SECP256K1):
+            if alg in ALGS and code == 3 and isinstance(key, ec.EllipticCurvePrivateKey):
+                if ir[0] == "ok" and ir[1]:
+                    fails.append({"input": {"op": "key-type", "key": "EC key on " + key.curve.name, "key_size": key.key_size, "alg": alg}, "observed": f"{ir}", "expected": "refused"})
+            if alg in ALGS and code in (0, 1):
                 want = (alg == f"es-{ks}") if code == 0 else alg in ("eddsa", "hash-eddsa")
                 if ir != ("ok", want):
                     fails.append({"input": {"op": "key-type", "key": type(key).__name__, "key_size": ks, "alg": alg}, "observed": f"{ir}", "expected": f"{want}"})
@@ -298,8 +303,11 @@ def build_tree(ck, world, depth, maxdepth, counter):
         for nm in rng.sample(["#radio", "#app", "dep.suit", "#top", "#sysctrl"], rng.choice([1, 1, 2, 3] if depth < 2 else [0, 1, 2])):
             n.children[nm] = build_tree(ck, world, depth + 1, maxdepth, counter)
     for nm in rng.sample(["#file.bin", "#fw", "http://x/y"], rng.choice([0, 1, 2])):
-        # first byte below 0x80: the payload can never be read as a tagged CBOR item (which the tool would take for an envelope)
         n.payloads[nm] = bytes([rng.randrange(128)]) + bytes(rng.randrange(256) for _ in range(rng.choice([0, 1, 22, 23, 99])))
+        if rng.random() < 0.35:
+            # a payload that READS as a tagged CBOR item (an envelope tag around a number, a COSE_Sign1-looking array, a date): it
+            # is a payload all the same — named as a dependency it is "not an envelope", and it is never cut to the item it begins with
+            n.payloads[nm] = rng.choice([b"\xd8\x6b\x01", b"\xd2\x84\x40\xa0\xf6\x40", b"\xc1\x00", b"\xd8\x6b\x80", b"\xd9\x03\xe7\xa0"]) + n.payloads[nm]
     man = {"suit-manifest-version": 1, "suit-manifest-sequence-number": seq,
            "suit-common": {"suit-components": [["M", seq]]},
            "suit-manifest-component-id": ["I", {"raw": "%032x" % seq}]}
